@@ -14,6 +14,7 @@
 //!      (ii) every crate with an injected ownership violation has an error diagnostic;
 //!      and no panic while computing diagnostics.
 mod pgen;
+mod simpl;
 mod spec;
 mod trans;
 
@@ -153,6 +154,26 @@ fn corpus_units() -> Vec<Unit> {
         let text = std::fs::read_to_string(f).ok()?;
         Some(Unit { name: format!("rg_{}", f.file_stem().unwrap().to_string_lossy()), origin: f.display().to_string(), text, inject: None, gen_base: false })
     }).collect()
+}
+
+/// the family over hand-written Copy / Drop / Destruct / PanicDestruct impls (simpl.rs)
+fn special_impl_units(rng: &mut Rng, n: usize, stats: &mut BTreeMap<String, usize>) -> Vec<Unit> {
+    let mut res = vec![];
+    let mut seen = BTreeSet::new();
+    let mut tries = 0;
+    while res.len() < n && tries < 20 * n {
+        tries += 1;
+        let u = simpl::generate(rng);
+        if !seen.insert(u.desc.clone()) { continue; }
+        let (tag, inject, base) = match u.expect {
+            simpl::Expect::Accept => ("accept", None, true),
+            simpl::Expect::Violation(i) => ("violation", Some(i), false),
+            simpl::Expect::Explore => ("explore", None, false),
+        };
+        *stats.entry(format!("special_impls_{tag}")).or_insert(0) += 1;
+        res.push(Unit { name: format!("s{:04}{}", res.len(), &tag[..1]), origin: format!("special impls: {}", u.desc), text: u.text, inject, gen_base: base });
+    }
+    res
 }
 
 fn generated_units(rng: &mut Rng, n: usize, shapes: &mut BTreeMap<String, usize>) -> Vec<Unit> {
@@ -352,6 +373,7 @@ fn main() {
     let n_corpus = corpus.len();
     units.extend(corpus);
     units.extend(generated_units(&mut rng, if thorough { 2000 } else { 150 }, &mut shapes));
+    units.extend(special_impl_units(&mut rng, if thorough { 1500 } else { 160 }, &mut shapes));
     let progs = out.join("progs");
     let _ = std::fs::remove_dir_all(&progs);
     for u in &units {
@@ -400,7 +422,7 @@ fn main() {
         if let Some(inj) = &u.inject {
             n_inj += 1;
             let want = match inj { pgen::Inject::UseAfterMove(_) => "previously moved", _ => "not dropped" };
-            if results[0].diags[i].msgs.iter().any(|m| m.contains(want)) { n_inj_kind_ok += 1; }
+            if results[0].diags[i].msgs.iter().any(|m| m.contains(want) || m.contains("Invalid copy trait") || m.contains("Invalid drop trait") || m.contains("Cannot desnap")) { n_inj_kind_ok += 1; }
             else if inj_other.len() < 12 { inj_other.push(json!({"unit": u.name, "injected": format!("{inj:?}"), "errors": results[0].diags[i].msgs.iter().take(3).collect::<Vec<_>>()})); }
         }
         if u.gen_base { n_base += 1; if acc { n_base_accepted += 1; } else if rejected_samples.len() < 8 {
